@@ -366,6 +366,8 @@ def run(ctx: Ctx, wd, handles_only: bool = False, only_feature: str | None = Non
                 feats["dom-wire"] += 1
         if "Insert" in acts:
             feats["insert"] += 1
+            if any(e["a"] == "Insert" and e["ctx"] != 0 for e in hist):
+                feats["insert-in-nested-region"] += 1
             ctx.nontriv(hist)
             for e in hist:
                 if e["a"] == "Insert":
@@ -436,12 +438,13 @@ def run(ctx: Ctx, wd, handles_only: bool = False, only_feature: str | None = Non
             ctx.sample({"builder_program": hist, "expected_edges": exp["edges"]})
     s_cfgs = ([C("RootBQ", 4, 2, ALL_OPS, DF), C("RootBQ", 7, 2, ("H",), CO), C("RootBQ", 7, 2, ("Some",), CO), C("RootBQ", 4, 2, ("Some", "Cont"), LO),
                C("RootBQ", 5, 2, ("Not", "H"), FU), C("RootBQ", 8, 2, (), CF), C("RootBQ", 7, 2, (), CF + ("unit",), sk=2), C("RootBQ", 9, 2, (), CF + ("dom",), sk=25),
-               C("RootBQ", 3, 2, ("Not",), IN), C("RootBQ", 6, 2, ("H",), IF), C("RootB", 6, 3, (), ("nested",), ma=1), C("Module", 5, 2, ("Not",), DE)] if quick else
+               C("RootBQ", 3, 2, ("Not",), IN), C("RootBQ", 4, 2, (), IN + ("nested",), sk=2), C("RootBQ", 6, 2, ("H",), IF), C("RootB", 6, 3, (), ("nested",), ma=1),
+               C("Module", 5, 2, ("Not",), DE)] if quick else
               [C("RootBQ", 4, 2, ALL_OPS, DF), C("RootBQ", 7, 2, ("Not",), CO), C("RootBQ", 7, 2, ("Some",), CO), C("RootBQ", 8, 2, ("H",), CO),
                C("RootBQ", 7, 3, ("H",), CO + ("nested",), ma=1), C("RootBQ", 4, 2, ("Some", "None", "Cont", "Brk", "H"), LO), C("RootBQ", 6, 3, (), LO + ("nested",), ma=1),
                C("RootBQ", 8, 3, (), CO + LO, ma=1), C("RootBQ", 6, 2, ("Not",), FU), C("RootBQ", 7, 3, (), FU + CO, ma=1),
                C("RootBQ", 8, 2, (), CF + ("unit",)), C("RootBQ", 7, 2, ("Not", "H"), CF), C("RootBQ", 9, 2, (), CF + ("dom",), sk=2),
-               C("RootBQ", 8, 3, (), CF + ("nested", "unit"), sk=4, ma=1), C("RootBQ", 4, 2, ("Not", "H"), IN), C("RootBQ", 7, 2, ("H", "Not"), IF),
+               C("RootBQ", 8, 3, (), CF + ("nested", "unit"), sk=4, ma=1), C("RootBQ", 4, 2, ("Not", "H"), IN), C("RootBQ", 4, 2, (), IN + ("nested",)), C("RootBQ", 7, 2, ("H", "Not"), IF),
                C("RootB", 6, 3, (), ("nested",), ma=1), C("RootBQ", 6, 3, ("H",), FU + ("nested",), ma=1), C("Module", 6, 2, ("Not", "H"), DE)])
     if handles_only:
         s_cfgs = ([C("RootBQ", 3, 2, ALL_OPS, DF), C("RootBQ", 7, 2, ("H",), CO), C("RootBQ", 4, 2, ("Some",), LO), C("RootBQ", 8, 2, (), CF), C("RootBQ", 3, 2, ("Not",), IN)] if quick else
@@ -498,7 +501,7 @@ def run(ctx: Ctx, wd, handles_only: bool = False, only_feature: str | None = Non
     ctx.note("builder_model_comparison_guard_cases", guard[0])
     ctx.note("builder_model_finished_states_replayed", n[0])
     ctx.note("builder_model_features", dict(feats))
-    need = (("insert:nestext", "insert:loop", "insert:cond", "insert:cfg") if only_feature == "insert" else ("nested", "cond", "loop", "cfg", "insert") if handles_only else
+    need = (("insert:nestext", "insert:loop", "insert:cond", "insert:cfg", "insert-in-nested-region") if only_feature == "insert" else ("nested", "cond", "loop", "cfg", "insert") if handles_only else
             ("nested", "cond", "cond-with-outputs", "loop", "loop-just-inputs", "call", "recursive-call", "cfg", "cfg-2-blocks", "dom-wire", "insert:nestext", "insert:loop",
              "insert:cond", "insert:cfg", "if-else", "module-root", "row-poly-call"))
     if n[0] < 50 or not all(feats[f] for f in need):
